@@ -250,12 +250,17 @@ inductive Mode
   | real
   | assume
   | ban (pk : Bytes)
+  /-- `Prevouts::One(i, _)` while input `idx` is spent -/
+  | one (i idx : Nat)
 
 def parseMode (s : String) : Option Mode :=
   if s == "real" then some .real
   else if s == "assume" then some .assume
   else match s.splitOn ":" with
     | ["ban", pk] => (Hash.ofHex pk).map .ban
+    | ["one", i, idx] => match i.toNat?, idx.toNat? with
+      | some i, some idx => some (.one i idx)
+      | _, _ => none
     | _ => none
 
 /-- `assume`: every element with the shape of a signature (registered by the harness with libsecp's
@@ -265,6 +270,13 @@ def sigOkM (t : Tables) (m : Mode) (dom : Nat) (pk sg : Bytes) : Bool :=
   | .real => t.dsigs.contains (dom, pk, sg)
   | .assume => t.sigs.contains ([], sg)
   | .ban b => pk != b && t.dsigs.contains (dom, pk, sg)
+  -- only the previous output of input `i` is known: a legacy digest needs none; a BIP143 digest needs
+  -- the amount of the input being spent; a BIP341 digest needs every previous output unless the
+  -- signature is ANYONECANPAY (explicit sighash byte with bit 0x80), then the one being spent
+  | .one i idx =>
+    let known := i == idx
+    let acp := sg.length == 65 && (sg.getLast?.getD 0) &&& 0x80 != 0
+    (dom == 0 || (dom == 1 && known) || (dom ≥ 2 && known && acp)) && t.dsigs.contains (dom, pk, sg)
 
 def spendEnvM (t : Tables) (m : Mode) (ver lt sq : Nat) : SpendEnv :=
   { spendEnvV t ver lt sq with sigOk := sigOkM t m }
@@ -345,6 +357,32 @@ def opsInterp (t : Tables) (kind op : String) (args : List String) : Option Stri
         | .ok cs => "accept " ++ (if cs.isEmpty then "-" else ",".intercalate (cs.map (showConstraint (ctx == .tap))))
         | .error e => "reject:" ++ showIErr e)
     | _ => none
+  -- C txdata-key <0|1 require compressed> <pk> => accept | reject:txdata:<class>
+  -- (the real `from_txdata` + `iter` verdict on a key-hash spend that is valid but for the key's form)
+  | "C", "txdata-key" =>
+    match args with
+    | [rc, pk] => do
+      let pk ← Hash.ofHex pk
+      pure (match Interp.pkFromSlice (interpEnv t .segwitv0 1 2 0 0).keyParse (rc == "1") pk with
+        | .ok () => "accept"
+        | .error .pubkeyParse => "reject:txdata:PubkeyParseError"
+        | .error .uncompressed => "reject:txdata:UncompressedPubkey")
+    | _ => none
+  -- C txdata-segwit-script <ast> => accept | reject:txdata:Miniscript
+  -- (a p2wsh / sh-wsh spend of this miniscript that Script accepts)
+  | "C", "txdata-segwit-script" =>
+    match args with
+    | [ast] => do
+      let ms ← parseAst ast
+      pure (if Interp.segwitScriptAdmits t.keyEnv ms then "accept" else "reject:txdata:Miniscript")
+    | _ => none
+  -- C script-verdict <input class> <ver> <lt> <sq> <spk> <ss> <wit> - | info   => accept | reject(..)
+  -- (a premise of the harness: this hand-built spend is valid for `Spec/Spend.verifySpend`)
+  | "C", "script-verdict" => do
+    let (ver, lt, sq, spk, ss, wit, _) ← parseVerdictArgs args
+    pure (match verifySpend (spendEnvV t ver lt sq) spk ss wit with
+      | .ok => "accept"
+      | .fail w => "reject(" ++ w ++ ")")
   | "J", "interp-accepts-own-m" =>
     match args with
     | _m :: rest => do
